@@ -46,6 +46,9 @@ type Input struct {
 	Gated   bool   `json:"gated"`   // commits park until released
 	Bundle  int    `json:"bundle"`  // persister bundle-count threshold
 	TdShort bool   `json:"tdshort"` // tiny teardown flush budget
+	PlStatus int   `json:"plstatus,omitempty"` // stored pipeline status: 0 running 1 user-stopped 2 degraded 3 system-stopped 4 recovering
+	Engine  string `json:"engine,omitempty"`   // lifecycle service of the full restart: v1 | v2
+	Full    bool   `json:"full,omitempty"`     // restart through pipeline/connector/processor/lifecycle services too
 	Steps   []Step `json:"steps"`
 }
 
@@ -73,6 +76,12 @@ func (in *Input) Normalize() {
 	}
 	if in.Bundle < 1 {
 		in.Bundle = 10000
+	}
+	if in.PlStatus < 0 || in.PlStatus > 4 {
+		in.PlStatus = 0
+	}
+	if in.Engine != "v2" {
+		in.Engine = "v1"
 	}
 }
 
@@ -154,6 +163,9 @@ func NewWorld(in Input) (*World, error) {
 		plug := NewFakeSource(i, w.Log)
 		fetch[pluginName+ids[i]] = dispenser{src: plug}
 		w.srcs = append(w.srcs, &srcCtl{id: ids[i], inst: inst, plug: plug, nextRec: in.Inits[i] + 1})
+	}
+	if err := setupPipeline(w.DB, w.svc, in, ids); err != nil {
+		return nil, err
 	}
 	td := 400 * time.Millisecond
 	if in.TdShort {
